@@ -268,6 +268,23 @@ func envProduct(run *ev.Run, base string) {
 					imp = append(imp, "vx/"+strings.TrimPrefix(p, "./"))
 				}
 				vs = append(vs, variant{"import-path-patterns", rootA, "", append([]string{"gen"}, imp...)})
+				// other spellings of the same directories: trailing slash, unclean path, absolute directory
+				var slash, unclean, abs []string
+				for _, p := range pats {
+					if !strings.HasPrefix(p, "./") || strings.Contains(p, "...") {
+						slash, unclean, abs = nil, nil, nil
+						break
+					}
+					slash = append(slash, p+"/")
+					unclean = append(unclean, "./"+strings.TrimPrefix(p, "./")+"/../"+strings.TrimPrefix(p, "./"))
+					abs = append(abs, filepath.Join(rootA, strings.TrimPrefix(p, "./")))
+				}
+				if slash != nil {
+					vs = append(vs, variant{"spelling-trailing-slash", rootA, "", append([]string{"gen"}, slash...)})
+					vs = append(vs, variant{"spelling-unclean", rootA, "", append([]string{"gen"}, unclean...)})
+					vs = append(vs, variant{"spelling-absolute", rootA, "", append([]string{"gen"}, abs...)})
+					vs = append(vs, variant{"spelling-absolute-other-cwd", rootA, "..", append([]string{"gen", "-cwd", rootA}, abs...)})
+				}
 				if len(pats) == len(in.files) || true {
 					vs = append(vs, variant{"wildcard-overlap", rootA, "", append(append([]string{"gen"}, pats...), pats...)})
 				}
